@@ -1321,14 +1321,14 @@ def wfNul (G : NodeGrammar) : RuleId → Bool :=
   fun r => t.getD r false
 
 /-- The body evaluated under an id: a rule body, or the skip type for every other id. -/
-def bodyAt (G : NodeGrammar) (r : RuleId) : Node :=
+def ruleBodyAt (G : NodeGrammar) (r : RuleId) : Node :=
   match G.rule? r with
   | some d => d.body
   | none => G.skipped
 
 def rankStep (G : NodeGrammar) (nul : RuleId → Bool) (t : List Nat) : List Nat :=
   (List.range (G.rules.length + 1)).map (fun r =>
-    (heads nul G.sid (bodyAt G r)).foldr (fun r' acc => max (t.getD r' 0 + 1) acc) 0)
+    (heads nul G.sid (ruleBodyAt G r)).foldr (fun r' acc => max (t.getD r' 0 + 1) acc) 0)
 
 def rankTable (G : NodeGrammar) (nul : RuleId → Bool) : List Nat :=
   iterN (rankStep G nul) (G.rules.length + 2) []
